@@ -442,8 +442,8 @@ def run_reuse(unit, ctx):
                                  "detail": {"exception": r[1], "where": r[2], "failing_call": r[0]}})
         # an iteration that is started, left suspended while another call runs, finished, and followed by a call
         for h in hold_ops:
-            for mid in ops:
-                for last in ops[::3]:
+            for mid in (ops if ctx.thorough else ops[::2]):
+                for last in (ops[::3] if ctx.thorough else ops[::5]):
                     hist = (h, mid, ("resume", 0), last)
                     ev += 1
                     r = run_history(d, S, hist)
